@@ -4,7 +4,8 @@ From Config Require Import PyVal ConfigTypes Gen.ConfigTables ConfigModel Config
 
 (** For ALL dictionaries of Python values (None, bool, int, str, list, dict at any depth and position), all
     listening address lists and every oracle environment whose library functions raise only
-    ValueError / TypeError / AttributeError / KeyError (getaddrinfo also socket.gaierror): Configuration()
+    ValueError / TypeError / AttributeError / KeyError (getaddrinfo also socket.gaierror, the PEM loaders also
+    cryptography's UnsupportedAlgorithm): Configuration()
     returns or raises ConfigurationError - no other exception class escapes. *)
 Theorem C19_clean : forall E addrs d, env_ok E ->
   (exists c, load E addrs d = Ok c) \/ load E addrs d = Raise ConfigurationError.
